@@ -25,7 +25,11 @@ GENS = [('', []), ('<T>', [('ty', 'T')]), ("<'a>", [('lt', "'a")]), ("<'a, T>", 
         ('<T: Clone>', [('ty', 'T')]), ('<T = i32>', [('ty', 'T')]), ('<const N: usize>', [('const', 'N')]), ("<'a: 'b, 'b>", [('lt', "'a"), ('lt', "'b")])]
 # (counterpart path, the lifetime *parameters* it names — `'static` and `'_` name none and can be neither declared nor bounds of 'o2o)
 CPS = [('X', []), ('X<T>', []), ("X<'a>", ["'a"]), ("X<'c>", ["'c"]), ("m::X<'c, 'd, T>", ["'c", "'d"]), ("X<'a, 'c>", ["'a", "'c"]),
-       ("X<'static>", []), ("X<'c, 'static, 'c>", ["'c"]), ("X<'_>", [])]
+       ("X<'static>", []), ("X<'c, 'static, 'c>", ["'c"]), ("X<'_>", []),
+       ("X<&'c str>", ["'c"])]
+NESTED = {"X<&'c str>"}          # a lifetime nested inside a type argument of the counterpart path
+EXTRA_GENS = [("<'a, 'b: 'a, T: 'a + Clone, const N: usize>", [('lt', "'a"), ('lt', "'b"), ('ty', 'T'), ('const', 'N')]), ('<T, U = T>', [('ty', 'T'), ('ty', 'U')]), ('<T: ?Sized>', [('ty', 'T')])]
+EXTRA_CPS = [('m::n::X<T, U>', []), ("X<'a, 'b>", ["'a", "'b"]), ("::m::X<'d>", ["'d"])]
 WHERES = [('none', None, None), ('default', 'T: Copy', None), ('dedicated', None, 'T: Copy + Send'), ('both', 'T: Clone', 'T: Copy + Send'), ('both-dedicated-second', 'T: Clone', 'T: Copy + Send')]
 
 
@@ -177,9 +181,11 @@ def shard_body(ctx, sh):
         for im in impls:
             kind, fallible, problems = check_header(im, gi, ci, wi)
             ctx.cov['queries']['unsat' if not problems else 'sat'] += 1
+            if CPS[ci][0] in NESTED:
+                problems = [(c, w) for c, w in problems if c == 'declared-params']      # for nested lifetimes only the declaration is judged
             for cls, why in problems:
                 gens_text = GENS[gi][0]
-                feature = 'bounded-or-defaulted-or-const-param' if re.search(r':|=|const', gens_text) and cls in ('argument-form',) else 'plain'
+                feature = 'bounded-or-defaulted-or-const-param' if re.search(r':|=|const', gens_text) and cls in ('argument-form',) else ('nested-lifetime' if CPS[ci][0] in NESTED else 'plain')
                 ctx.violation('impl-header', '%s/%s' % (cls, feature), '%s%s: %s' % (kind, ' (fallible)' if fallible else '', why), {'input': src, 'output': n['out'][:1500]})
     if wit:
         ctx.sample({'input': wit[len(wit) // 2][3], 'generics': GENS[gi][0]})
@@ -192,6 +198,10 @@ def body(ctx):
     ctx.cov['outside_claim'] = ['whether the impl type-checks (rustc\'s type checker is not encoded): only the header structure the property describes is decided',
                                 'generic parameter lists beyond the menu (e.g. where clauses on the type definition itself)']
     ctx.assumptions = ['oracle = the property statement (declared once / argument form / counterpart-only lifetimes / \'o2o rule / dedicated-else-default where clause)']
+    if ctx.tier == 'thorough':
+        GENS.extend(EXTRA_GENS)
+        CPS.extend(EXTRA_CPS)
+        ctx.cov['bounds'].update({'generic_parameter_lists': [g[0] for g in GENS], 'counterpart_paths': [c[0] for c in CPS]})
     ctx.run_shards(shard_body, [{'gens': i} for i in range(len(GENS))])
 
 
